@@ -235,20 +235,32 @@ Proof.
     + exact IH.
 Qed.
 
+(* the model's index reader is the specification's rfc6901 index *)
+Lemma arr_index_strict : forall s, arr_index s = strict_idx s.
+Proof. intro s. reflexivity. Qed.
+
+Lemma dash_no_index : forall s, is_dash s = true -> strict_idx s = None.
+Proof.
+  intros s H. destruct s as [|c r]; [discriminate|]. unfold is_dash in H.
+  destruct c as [|p|p]; try discriminate.
+  do 6 (destruct p as [p|p|]; try discriminate). destruct r; [reflexivity | discriminate].
+Qed.
+
 Lemma arr_pos : forall n s, n_ty n = TArr -> idx_ok 0 (n_ch n) -> child_pos n s = aidx lenient (map val (n_ch n)) s.
 Proof.
-  intros n s T H. unfold child_pos, aidx. rewrite T. change (s_is_dash s) with (is_dash s).
-  destruct (is_dash s).
-  - simpl c_lenient. rewrite map_length. destruct (n_ch n); reflexivity.
-  - simpl c_look. rewrite (idx_ok_find (n_ch n) 0 (atoi s) H). rewrite map_length.
+  intros n s T H. unfold child_pos, aidx. rewrite T, arr_index_strict. change (s_is_dash s) with (is_dash s).
+  destruct (is_dash s) eqn:D.
+  - rewrite (dash_no_index s D). reflexivity.
+  - simpl c_look. destruct (strict_idx s) as [z|]; [|reflexivity].
+    rewrite (idx_ok_find (n_ch n) 0 z H). rewrite map_length.
     replace (0 + Z.of_nat (length (n_ch n))) with (Z.of_nat (length (n_ch n))) by lia.
-    replace (atoi s - 0) with (atoi s) by lia. reflexivity.
+    replace (z - 0) with z by lia. reflexivity.
 Qed.
 
 Lemma aidx_lt : forall c l s i, aidx c l s = Some i -> (i < length l)%nat.
 Proof.
   intros c l s i. unfold aidx. destruct (s_is_dash s).
-  - destruct (c_lenient c); [|discriminate]. destruct l; [discriminate|]. intro H. inversion H. simpl. lia.
+  - discriminate.
   - destruct (c_look c s) as [z|]; [|discriminate].
     destruct (Z.leb_spec 0 z) as [A|A]; destruct (Z.ltb_spec z (Z.of_nat (length l))) as [B|B]; simpl; try discriminate.
     intro E. inversion E. lia.
@@ -512,8 +524,9 @@ Proof.
     destruct (is_dash s).
     + cbn [fst snd rc_ok]. destruct (add_item_arr p v H0 T G) as [Q1 [Q2 [Q3 [Q4 Q5]]]].
       repeat split; auto; try congruence.
-    + cbn [c_ins lenient]. rewrite map_length.
-      set (idx := sw 32 (atoi s)). set (len := Z.of_nat (length (n_ch p))).
+    + cbn [c_ins lenient]. rewrite map_length, arr_index_strict.
+      destruct (strict_idx s) as [idx|]; [|cbn [fst snd rc_ok]; repeat split; auto].
+      set (len := Z.of_nat (length (n_ch p))).
       destruct (Z.gtb_spec idx len) as [A|A]; destruct (Z.ltb_spec idx 0) as [B|B]; cbn [orb fst snd rc_ok];
         try (repeat split; auto;
              destruct (Z.leb_spec 0 idx); destruct (Z.leb_spec idx len); simpl; auto; lia).
@@ -1104,10 +1117,7 @@ Qed.
 
 Lemma aidx_mono : forall l s i, aidx strict l s = Some i -> aidx lenient l s = Some i.
 Proof.
-  intros l s i. unfold aidx. cbn [c_lenient c_look strict lenient].
-  destruct (s_is_dash s) eqn:D; [discriminate|].
-  destruct (strict_idx s) as [z|] eqn:S; [|discriminate].
-  destruct (strict_idx_atoi s z S) as [A _]. rewrite A. auto.
+  intros l s i H. exact H.
 Qed.
 
 Lemma jget_mono : forall p v x, jget strict v p = Some x -> jget lenient v p = Some x.
@@ -1135,16 +1145,11 @@ Qed.
 
 Lemma remove_here_mono : forall pv s r, remove_here strict pv s = Some r -> remove_here lenient pv s = Some r.
 Proof.
-  intros pv s r H. destruct pv; try discriminate; cbn [remove_here] in *; auto.
-  destruct (aidx strict items s) as [i|] eqn:A; [|discriminate]. rewrite (aidx_mono _ _ _ A). exact H.
+  intros pv s r H. exact H.
 Qed.
 Lemma add_here_mono : forall x pv s r, add_here strict x pv s = Some r -> add_here lenient x pv s = Some r.
 Proof.
-  intros x pv s r H. destruct pv; try discriminate; cbn [add_here] in *; auto.
-  destruct (s_is_dash s); auto. cbn [c_ins strict lenient] in *.
-  destruct (strict_idx s) as [z|] eqn:S; [|discriminate].
-  destruct (strict_idx_atoi s z S) as [A [B _]]. rewrite A. rewrite sw32_id; [exact H|].
-  assert (10 ^ 9 < 2 ^ 31) by reflexivity. lia.
+  intros x pv s r H. exact H.
 Qed.
 
 Lemma s_remove_mono : forall v p v', s_remove strict v p = Some v' -> s_remove lenient v p = Some v'.
